@@ -64,6 +64,10 @@ def programs(max_depth=3, max_fan=4, kinds=('seq', 'map', 'mapnext'),
                 lambda k, a: {'t': 'mapcancel', 'kids': k, 'after': a},
                 st.lists(children, min_size=2, max_size=max_fan + 1),
                 st.integers(0, 3)))
+        if 'forget' in kinds:
+            opts.append(st.builds(
+                lambda k: {'t': 'forget', 'kids': k},
+                st.lists(children, min_size=1, max_size=max_fan)))
         if 'subcancel' in kinds:
             opts.append(st.builds(
                 lambda k, w: {'t': 'subcancel', 'kid': k, 'wait': w},
